@@ -32,6 +32,7 @@ SkipLine ==
   /\ l <= Len(Trace)
   /\ \/ T.ev \in {"InCall", "Propagate", "Commit", "End", "Out", "Corrupt", "Attend", "SendBytes", "Stale"}
      \/ (T.ev = "InRet" /\ T.ok)
+     \/ (T.ev = "InRet" /\ ~T.ok /\ T.id <= rd /\ lines[T.id].cls = "X")      \* its Own line was the ReadIn step
      \/ (T.ev = "DoRet" /\ T.act = 2)
      \/ (T.ev = "DoRet" /\ T.id = 0 /\ T.act = 0)
   /\ Consume /\ UNCHANGED vars
